@@ -83,6 +83,15 @@ Theorem C14_all_continue_nested : forall keys_of sel pol,
 Proof. exact VisitorParallelProofs.all_continue_nested. Qed.
 Print Assumptions C14_all_continue_nested.
 
+(* when every kind has an enter and a leave function and nothing breaks: every node that is
+   entered and not skipped is left exactly once, after its subtree, with the same key, parent
+   and enclosing nodes; a skipped node is a lone enter; events are properly nested *)
+Theorem C14_enter_leave_matched_nested : forall keys_of sel pol,
+  (forall kind ph, sel kind ph <> None) -> (forall id ph, pol id ph <> Break) ->
+  forall n c key, nested pol (fst (walk keys_of sel pol c key n)).
+Proof. exact VisitorParallelProofs.walk_nested. Qed.
+Print Assumptions C14_enter_leave_matched_nested.
+
 (* ---- VisitInParallel ---- *)
 (* The wrapper answers "no change" to the loop whatever the sub-visitors answer, so the loop
    hands it the full traversal; through the skipping bookkeeping as coded, a sub-visitor with
